@@ -35,6 +35,7 @@ type Obligation struct {
 
 type Exec struct {
 	L        *Loaded
+	inInit   bool // verifying a package initialiser: package-level variables are ordinary mutable cells
 	sorts    *Sorts
 	decls    []string
 	declared map[string]bool
@@ -386,7 +387,7 @@ func (ex *Exec) globalRef(g *ssa.Global) T {
 
 // immutableGlobalValue: value of a package-level variable that is never assigned outside init (error sentinels etc).
 func (ex *Exec) immutableGlobalValue(g *ssa.Global) (T, bool) {
-	if !ex.L.globalImmutable(g) {
+	if ex.inInit || !ex.L.globalImmutable(g) {
 		return T{}, false
 	}
 	elem := g.Type().(*types.Pointer).Elem()
